@@ -1,9 +1,28 @@
 package props
 
+import (
+	"go/format"
+	"strings"
+)
+
 // layoutZoo is a collection of small hand-written gofmt-canonical sources with comment and
 // blank-line layouts that real files contain only rarely. Every entry is checked for canonicality
 // at run time (non-canonical entries are skipped and counted), so the zoo never weakens an oracle.
 func layoutZoo() map[string]string {
+	m := baseZoo()
+	// the construct snippets, canonicalised, take part as well
+	for k, v := range extraSnippets() {
+		if strings.HasPrefix(k, "bad:") {
+			continue
+		}
+		if g, err := format.Source([]byte(v)); err == nil {
+			m["snippet-"+k] = string(g)
+		}
+	}
+	return m
+}
+
+func baseZoo() map[string]string {
 	return map[string]string{
 		"select-hanging": `package p
 
@@ -246,6 +265,74 @@ func F[
 	U any,
 ](x T, y U) {
 	_ = G[T, int]{} // inst
+}
+`,
+		"rare-constructs": `package p
+
+func f(xs []int, m map[string]int, ch chan int, v interface{}, args ...string) (n int, err error) {
+	a := xs[1:2:3]
+	b := xs[:2]
+	c := xs[1:]
+	s, ok := v.(string)
+	_ = v.(fmt.Stringer)
+	var send chan<- int = ch
+	var recv <-chan int = ch
+	arr := [...]int{1, 2, 3}
+	g(args...)
+	for range xs {
+	}
+	for i := range xs {
+		_ = i
+	}
+	for k, e := range m {
+		_, _ = k, e
+	}
+	for k = range m {
+	}
+outer:
+	for {
+		switch {
+		case ok:
+			fallthrough
+		case a == nil:
+			break outer
+		default:
+			continue outer
+		}
+	}
+	select {
+	case send <- 1:
+	case x, ok := <-recv:
+		_, _ = x, ok
+	}
+	p := &arr
+	q := *p
+	r := -n + ^n - (n * 2)
+	h := G[int, string]{}
+	t := (*T).M
+	go func(x int) {}(1)
+	defer h.Close()
+	if x := len(s); x > 0 && !ok || b != nil {
+		goto end
+	}
+	n++
+	n += 2
+	ch <- n
+end:
+	return n, nil
+}
+
+type U interface {
+	~int | ~string
+	comparable
+}
+
+type S struct {
+	A, B int ` + "`k:\"v\"`" + `
+	*T
+	F func(int, ...string) (int, error)
+	C chan struct{}
+	M map[string][]*T
 }
 `,
 		"chan-and-types": `package p
